@@ -8,6 +8,7 @@ package main
 // the storage paths written per job.  Only wiring; every decision is taken by arc's own code.
 
 import (
+	"bytes"
 	"context"
 	"encoding/base64"
 	"encoding/json"
@@ -15,8 +16,10 @@ import (
 	"io"
 	"os"
 	"path/filepath"
+	"strings"
 	"sync"
 
+	"github.com/apache/arrow-go/v18/parquet/file"
 	"github.com/basekick-labs/arc/internal/config"
 	"github.com/basekick-labs/arc/internal/ingest"
 	"github.com/basekick-labs/arc/internal/wal"
@@ -30,7 +33,8 @@ type verifWAJob struct {
 
 type verifWAOut struct {
 	ID      int      `json:"id"`
-	Paths   []string `json:"paths"`
+	Paths   []string       `json:"paths"`
+	Rows    map[string]int `json:"rows"` // "db/measurement" -> rows of the Parquet files written there
 	Entries int      `json:"entries"`
 	Err     string   `json:"err,omitempty"`
 }
@@ -38,13 +42,38 @@ type verifWAOut struct {
 type verifWABackend struct {
 	mu     sync.Mutex
 	writes []string
+	rows   map[string]int
 }
 
 func (b *verifWABackend) Write(ctx context.Context, path string, data []byte) error {
+	n := 0
+	if len(data) > 0 {
+		if rd, err := file.NewParquetReader(bytes.NewReader(data)); err == nil {
+			n = int(rd.NumRows())
+			rd.Close()
+		} else {
+			n = -1
+		}
+	}
+	key := path
+	if seg := strings.Split(path, "/"); len(seg) >= 3 {
+		key = seg[0] + "/" + seg[1]
+	}
 	b.mu.Lock()
 	b.writes = append(b.writes, path)
+	if b.rows == nil {
+		b.rows = map[string]int{}
+	}
+	b.rows[key] += n
 	b.mu.Unlock()
 	return nil
+}
+func (b *verifWABackend) takeRows() map[string]int {
+	b.mu.Lock()
+	r := b.rows
+	b.rows = nil
+	b.mu.Unlock()
+	return r
 }
 func (b *verifWABackend) WriteReader(ctx context.Context, path string, r io.Reader, size int64) error {
 	_, _ = io.Copy(io.Discard, r)
@@ -138,6 +167,7 @@ func verifWARun(jobFile, outFile, tmp string) error {
 			o.Err = err.Error()
 			_ = buf.FlushAll(context.Background())
 		}
+		o.Rows = store.takeRows()
 		o.Paths = store.take()
 		_ = os.RemoveAll(dir)
 		outs = append(outs, o)
